@@ -312,4 +312,42 @@ finding `compare-adaptive/inline-longer-than-chunk`. -/
 theorem adaptive_compare_inline_long_refuted :
     compareAdaptive (.inl (List.replicate 50 7)) (.oob (build 40 (List.replicate 50 7) [])) = some .gt := by decide
 
+/-! ## JSON: the leaf chunks concatenate to the serialized text -/
+
+/-- **json_chunks_concat**: whatever offsets the scanner stops at (non-decreasing, inside the text)
+and whatever the boundary predicate decides, the leaf blobs written by `processBuffer` + `Done`
+concatenate to the text from the chunk start on — for `SerializeJsonToAddr` (start 0): to the whole
+serialized document.  No byte is dropped or duplicated at a chunk boundary. -/
+theorem json_chunks_concat (boundary : Nat → Bytes → Bool) (text : Bytes) :
+    ∀ (locs : List Nat) (start k : Nat), start ≤ text.length → ScanOffsets text.length start locs →
+      (jsonChunks boundary text locs start k).flatten = text.drop start := by
+  intro locs
+  induction locs with
+  | nil => intro start k _ _; simp [jsonChunks]
+  | cons p ps ih =>
+    intro start k hs hsc
+    obtain ⟨h1, h2, h3⟩ := hsc
+    unfold jsonChunks
+    simp only []
+    by_cases hb : boundary k ((text.drop start).take (p - start)) = true
+    · rw [if_pos hb, List.flatten_cons, ih p (k + 1) h2 h3]
+      have : text.drop p = (text.drop start).drop (p - start) := by
+        rw [List.drop_drop]; congr 1; omega
+      rw [this, List.take_append_drop]
+    · rw [if_neg hb]
+      exact ih start (k + 1) hs (by
+        cases ps with
+        | nil => trivial
+        | cons q qs => exact ⟨Nat.le_trans h1 h3.1, h3.2.1, h3.2.2⟩)
+
+theorem json_chunks_concat_document (boundary : Nat → Bytes → Bool) (text : Bytes) (locs : List Nat)
+    (h : ScanOffsets text.length 0 locs) : (jsonChunks boundary text locs 0 0).flatten = text := by
+  simpa using json_chunks_concat boundary text locs 0 0 (Nat.zero_le _) h
+
+/-- non-vacuity: text `[1,2,3,4,5,6]`, scanner stops at 2, 4, 6, boundary at the second stop -/
+example : jsonChunks (fun k _ => k == 1) [1, 2, 3, 4, 5, 6] [2, 4, 6] 0 0 = [[1, 2, 3, 4], [5, 6]] ∧
+    ScanOffsets 6 0 [2, 4, 6] := by
+  refine ⟨by decide, ?_⟩
+  exact ⟨by omega, by omega, by omega, by omega, by omega, by omega, trivial⟩
+
 end DoltVerif.C16
